@@ -120,7 +120,11 @@ def run(ctx, rep):
         rep.check("C10.rewind", "in-place write after a successful rewind", good, loc_of(b, t), "", "in-place write without a successful seek back to the start of the metadata")
     for bi, t in seeks:
         org = origins(b, t["a"][1])
-        good = any(k == "agg" and x["adt"] == "std::io::SeekFrom" and x["var"] == "Start" for k, x in org)
+        good = False
+        for k, x in org:
+            if k == "agg" and x["adt"] == "std::io::SeekFrom" and x["var"] == "Start":
+                sl = backward_slice(b, x["ops"][0])
+                good = any(re.search(r"std::io::Seek::stream_position$", callee_name(c)) for c in sl["calls"]) and not (sl["ops"] - {"Eq", "Ne"})
         good = good and start_def and reads and b.dominates(start_def[0][0], reads[0][0])
         rep.check("C10.rewind", "rewind target is the position remembered before the blocks were read", bool(good), loc_of(b, t))
 
